@@ -6,6 +6,7 @@ import (
 	"fmt"
 	"go/ast"
 	"go/token"
+	"go/types"
 	"os"
 	"os/exec"
 	"path/filepath"
@@ -110,10 +111,98 @@ func GenMutants(env *core.Env, props []string, only string) []Mutant {
 			out = append(out, Mutant{File: rel, Start: s, End: e, New: repl, Old: string(src[s:e]), Func: core.FuncName(fn), Line: tf.Line(from), Op: op, Props: touched[fn]})
 		}
 		text := func(n ast.Node) string { return string(src[tf.Offset(n.Pos()):tf.Offset(n.End())]) }
+		// wrong-variable mutants: a call argument that is a plain identifier or a field selector is
+		// replaced by another variable of the identical type that is in scope at the call
+		info := env.TypesInfo(fn)
+		type cand struct {
+			name string
+			pos  token.Pos
+			typ  types.Type
+		}
+		var cands []cand
+		var ftype *ast.FuncType
+		if info != nil {
+			switch x := syn.(type) {
+			case *ast.FuncDecl:
+				ftype = x.Type
+			case *ast.FuncLit:
+				ftype = x.Type
+			}
+			if ftype != nil && ftype.Params != nil {
+				for _, f := range ftype.Params.List {
+					for _, nm := range f.Names {
+						if o := info.Defs[nm]; o != nil && nm.Name != "_" {
+							cands = append(cands, cand{nm.Name, nm.Pos(), o.Type()})
+						}
+					}
+				}
+			}
+			ast.Inspect(body, func(n ast.Node) bool {
+				if _, ok := n.(*ast.FuncLit); ok {
+					return false
+				}
+				if id, ok := n.(*ast.Ident); ok && id.Name != "_" {
+					if o := info.Defs[id]; o != nil {
+						if _, isVar := o.(*types.Var); isVar {
+							cands = append(cands, cand{id.Name, id.Pos(), o.Type()})
+						}
+					}
+				}
+				return true
+			})
+		}
+		swapArg := func(call *ast.CallExpr) {
+			if info == nil {
+				return
+			}
+			for _, a := range call.Args {
+				var root *ast.Ident
+				switch x := a.(type) {
+				case *ast.Ident:
+					root = x
+				case *ast.SelectorExpr:
+					if id, ok := x.X.(*ast.Ident); ok {
+						root = id
+					}
+				}
+				if root == nil {
+					continue
+				}
+				tv, ok := info.Types[a]
+				if !ok || tv.Type == nil || tv.IsType() || tv.Value != nil {
+					continue
+				}
+				if b, isBasic := tv.Type.Underlying().(*types.Basic); !isBasic || b.Info()&(types.IsString|types.IsInteger|types.IsBoolean) == 0 {
+					if _, isPtr := tv.Type.Underlying().(*types.Pointer); !isPtr {
+						continue
+					}
+				}
+				n := 0
+				for i := len(cands) - 1; i >= 0 && n < 2; i-- {
+					cd := cands[i]
+					if cd.pos >= call.Pos() || cd.name == text(a) || !types.Identical(cd.typ, tv.Type) {
+						continue
+					}
+					// the candidate must still be in scope: same or enclosing block (approximated by
+					// asking the type checker's scopes)
+					if sc := info.Scopes[ftype]; ftype != nil && sc != nil {
+						if inner := sc.Innermost(call.Pos()); inner != nil {
+							if _, o := inner.LookupParent(cd.name, call.Pos()); o == nil || o.Pos() != cd.pos {
+								continue
+							}
+						}
+					}
+					add("swap-arg", a.Pos(), a.End(), cd.name)
+					n++
+				}
+			}
+		}
 		ast.Inspect(body, func(n ast.Node) bool {
 			switch x := n.(type) {
 			case *ast.FuncLit:
 				return false // closures are separate ssa functions, mutated when touched
+			case *ast.CallExpr:
+				swapArg(x)
 			case *ast.ExprStmt:
 				if _, isCall := x.X.(*ast.CallExpr); isCall {
 					add("del-call", x.Pos(), x.End(), "")
@@ -251,6 +340,17 @@ func Survey(self, repo, verif string, props []string, only string, par int, outF
 			return err
 		}
 		ms = GenMutants(env, props, only)
+		if ops := os.Getenv("MUT_OPS"); ops != "" {
+			var keep []Mutant
+			for _, m := range ms {
+				for _, o := range strings.Split(ops, ",") {
+					if m.Op == o {
+						keep = append(keep, m)
+					}
+				}
+			}
+			ms = keep
+		}
 	}
 	done := map[string]bool{}
 	if f, err := os.Open(outFile); err == nil {
